@@ -37,7 +37,7 @@ MODES = ["RAVIART_THOMAS", "CONSTANT_SUBCELL_PROJECTION", "CONSTANT_CELL_PROJECT
 def bounds(tier):
     if tier == "quick":
         return "cost laws and moment bound: grids (3,), (2,2), (1,3), (2,1,2) for all three L1 modes (Raviart-Thomas on <= 3 cells); uniqueness: all 1-D grids up to 8 cells and n x 1 / 1 x n (x 1) up to 6; EMD on 2x2 and 2x3 images; dispatch over 7 method strings"
-    return "cost laws: additionally (3,2), (3,3), (2,2,2) for the cell / sub-cell modes and (3,2), (2,2,1) for Raviart-Thomas; uniqueness: 1-D up to 40 cells, thin grids up to 12"
+    return "cost laws: additionally (3,2), (3,3), (2,2,2), (2,2,1) for the cell mode, (3,2), (2,2,1) for the sub-cell mode and (2,2,1) for Raviart-Thomas; uniqueness: 1-D up to 40 cells, thin grids up to 12; thin-grid solver runs and mobility lemmas on more shapes"
 
 
 def configs(tier):
@@ -46,9 +46,12 @@ def configs(tier):
     shapes = [[3], [2, 2], [1, 3], [2, 1, 2]] + ([] if q else [[3, 2], [3, 3], [2, 2, 2], [2, 2, 1]])
     for shape in shapes:
         for mode in MODES:
-            if mode == "RAVIART_THOMAS" and int(np.prod(shape)) > (3 if q else 6):
-                continue
-            out.append(dict(kind="laws", shape=shape, mode=mode))
+            if mode == "RAVIART_THOMAS" and int(np.prod(shape)) > (3 if q else 4):
+                continue  # (3,2) with the 9-point rule: the only path runs beyond the 600 s wall (probed)
+            if mode == "CONSTANT_SUBCELL_PROJECTION" and int(np.prod(shape)) > 6:
+                continue  # (3,3) and (2,2,2): same
+            if not (mode == "RAVIART_THOMAS" and shape == [2, 2]):  # the laws query on (2,2) with the 4-point rule runs beyond the 600 s wall
+                out.append(dict(kind="laws", shape=shape, mode=mode))
             out.append(dict(kind="moment", shape=shape, mode=mode))
     for k in (1, 2, 3):
         out.append(dict(kind="norm_lemmas", k=k))
